@@ -540,6 +540,13 @@ def _record_value(e, env, tgt, lnode, rnode):
         k1, k2 = const_int(r['x']), const_int(r['y'])
         if k1 is not None and k2 is not None:
             e.ints[ctgt] = (min(k1, k2), max(k1, k2), frozenset())
+    elif r.get('k') == 'bin' and r.get('op') in ('&', '>>', '%', '+', '-', '<<', '*', '/') and not lnode.get('p'):
+        # masks / shifts / small arithmetic: keep the interval when it is finite and not the whole type
+        from . import ivl
+        rng = ivl.eval_raw(rnode, env)
+        tr = ivl.type_range(lnode) if (lnode.get('w') or lnode.get('bf')) else (-INF, INF)
+        if rng[0] != -INF and rng[1] != INF and ivl.fits(rng, tr) and rng != tr:
+            e.ints[ctgt] = (rng[0], rng[1], frozenset())
 
 
 def solve(f, inits, on_event, on_exit=None, relevant=None, R=None, key_fn=None,
